@@ -16,7 +16,7 @@ CHECKS = {
         'must not raise at all for a well-formed document. Thorough adds three atheris campaigns (empty and seeded corpus) on the same '
         'target with the oracle inside. Depth / element limits are swept at limit-1, limit, limit+1 (eager and lazy, with comments / PIs '
         'interleaved); every built-in and 9 facet-restricted types meet huge lexical forms. Crashes are '
-        'bucketed by call site; two buckets are listed known findings.',
+        'bucketed by call site; two buckets are listed known findings. A deterministic sub-check keeps every lazy iteration generator alive and requires the next validation to work (no reliance on garbage collection to release the lock of a lazy resource).',
         'trusted: ElementTree well-formedness as the notion of "well-formed"; watchdog expiry = inconclusive',
         'DESIGN.md section 3 C11'),
     'C18': (
@@ -26,7 +26,7 @@ CHECKS = {
         'threads at function calls inside the package (sys.settrace) and at contended cooperative locks. Per-thread results must equal '
         'the sequential baseline, component identities must not change after any thread\'s build() returned (built once), and the final '
         'signature must equal a sequential build\'s. A systematic tier preempts the building thread once at every line of '
-        'XsdGlobals.build() and every call of depth <= 2 (thorough 3) below it and lets a second thread build and use the schema. A free-running tier with switch interval 1e-6 complements it. Refutes only.',
+        'XsdGlobals.build() and every call of depth <= 2 (thorough 3) below it and lets a second thread build and use the schema. A free-running tier with switch interval 1e-6 complements it. Refutes only. A pool whose identity selectors are extended at run time (xsi:type-substituted content) exercises shared state written during validation.',
         'trusted: sequential run as reference; no claim about preemption inside C code beyond the free-running tier',
         'DESIGN.md section 3 C18'),
     'C14': (
@@ -64,7 +64,7 @@ CHECKS = {
         'depths are decoded under stacked / collapsed / root-only xmlns processing; every key of the decoded data is resolved with '
         'the declarations the data itself reports (XML Namespaces rules) and must be the node\'s expanded name; encoding the data '
         'must restore all expanded names; dictionary converters and DataElement are covered; unmap(map(q)) == q on random maps. '
-        'Two conventions of the library are listed known findings (default-namespace attributes, dictionary key collisions). The schema also has a leaf in NO namespace (xmlns="" under a default namespace); decoded keys of the default converter are resolved too; dictionary round trips are asserted on documents without sibling elements.',
+        'Two conventions of the library are listed known findings (default-namespace attributes, dictionary key collisions). The schema also has a leaf in NO namespace (xmlns="" under a default namespace); decoded keys of the default converter are resolved too; dictionary round trips are asserted on documents without sibling elements. A namespaces argument whose prefixes collide with the document is passed in stacked mode: the reported declarations and the keys must stay consistent.',
         'trusted: the generator knows every node\'s expanded name by construction; resolver in vf/checks/c17.py',
         'DESIGN.md section 3 C17'),
     'C10': (
